@@ -201,6 +201,8 @@ func indexIngest(repo Repo, index *types.Index, conf config.Config, locked bool)
 		// for each fallback tag, validate it
 		addResp := map[string][]types.Descriptor{}
 		rmDesc := []types.Descriptor{}
+		rmDescSubj := [][]string{}
+		skipped := map[string]bool{}
 		for _, desc := range digestTags {
 			curResp, err := repoGetIndex(repo, desc, locked)
 			if err != nil || curResp.Manifests == nil {
@@ -232,10 +234,13 @@ func indexIngest(repo Repo, index *types.Index, conf config.Config, locked bool)
 			}
 			// if the response cannot be quickly converted, save for later
 			if !valid {
+				subjList := []string{}
 				for refSubj := range refResp {
 					addResp[refSubj.String()] = append(addResp[refSubj.String()], refResp[refSubj]...)
+					subjList = append(subjList, refSubj.String())
 				}
 				rmDesc = append(rmDesc, desc)
+				rmDescSubj = append(rmDescSubj, subjList)
 			}
 		}
 
@@ -260,7 +265,8 @@ func indexIngest(repo Repo, index *types.Index, conf config.Config, locked bool)
 			// the repo lock may be held by the caller, use the internal method
 			bc, _, err := repo.blobCreate(locked, BlobWithDigest(dig))
 			if err != nil && errors.Is(err, types.ErrReadOnly) {
-				// a read-only store cannot save a regenerated response, the repository is served without the referrers of this subject
+				// a read-only store cannot save a regenerated response, the fallback tags with referrers of this subject are left in place
+				skipped[subj] = true
 				continue
 			}
 			if err != nil && !errors.Is(err, types.ErrBlobExists) {
@@ -289,8 +295,16 @@ func indexIngest(repo Repo, index *types.Index, conf config.Config, locked bool)
 			mod = true
 		}
 		// cleanup processed fallback tags
-		for _, d := range rmDesc {
-			index.RmDesc(d)
+		for di, d := range rmDesc {
+			keep := false
+			for _, subj := range rmDescSubj[di] {
+				if skipped[subj] {
+					keep = true
+				}
+			}
+			if !keep {
+				index.RmDesc(d)
+			}
 		}
 		if index.Annotations == nil {
 			index.Annotations = map[string]string{types.AnnotReferrerConvert: "true"}
